@@ -7,7 +7,7 @@
 From Coq Require Import List String Ascii ZArith Bool Lia.
 From PintV Require Import Common.Bytes Model.Position Model.Layout
      Proofs.C06_expand Proofs.C06_match Proofs.C06_styles Proofs.C06_readrange Proofs.C06_bounds
-     Proofs.C06_shift Proofs.C06_blocks Proofs.C06_carets Proofs.C06_plain_exact Proofs.C06_flowml.
+     Proofs.C06_shift Proofs.C06_blocks Proofs.C06_carets Proofs.C06_plain_exact Proofs.C06_flowml Proofs.C06_dq Proofs.C06_sync.
 Import ListNotations.
 Local Open Scope Z_scope.
 Local Open Scope list_scope.
@@ -42,6 +42,19 @@ Theorem C06_positions_spell_prefix : forall lines n minCol pos,
       read_back lines pos = Some rb /\ fold_eq rb done_ = true /\ sn_value n = (done_ ++ left_)%string).
 Proof. exact positions_spell_prefix. Qed.
 Print Assumptions C06_positions_spell_prefix.
+
+(** ** UNCONDITIONAL for EVERY node, double-quoted scalars with arbitrary escape sequences included: the positions are
+    IN STEP with the value — a returning call gives the fallback or positions whose number equals the length of the prefix of
+    the value that was located ([done_]); the k-th position is the place of the k-th value byte.  A diagnostic's offsets
+    [FirstColumn..LastColumn] into the value therefore select the positions of exactly those bytes ([diag_positions] counts
+    positions), never shifted — also where the literal read-back differs (escape sequences).  Before fixes 6c7f5de and a2fc6da
+    this was false (an extra line-break position shifted every later offset; the scan ran away at an escape). *)
+Theorem C06_positions_in_step : forall lines n minCol pos,
+  new_position_range lines n minCol = Ok pos ->
+  pos = fallback n \/
+  exists done_ left_, sn_value n = (done_ ++ left_)%string /\ wf pos /\ plen pos = slen done_.
+Proof. exact positions_in_step. Qed.
+Print Assumptions C06_positions_in_step.
 
 (** ** Partial theorem, general form: under the guard [node_ok] (Model/Layout.v: every line's scan finds its
     segment — what is left of Appendix C after the fixes is g1 and "the value is not made of line breaks only";
@@ -86,6 +99,29 @@ Qed.
 Print Assumptions C06_spell_double_noescape.
 
 
+(** Double-quoted scalars WITH the self-escapes backslash-doublequote and backslash-backslash (how PromQL with label matchers
+    is usually quoted: [expr: "up{job=\"a\"} == 0"]): since fix a2fc6da every escape sequence is one token; the escaped
+    character is located on itself (not on the backslash) and the positions spell the value.  The line reads
+    [pre ++ quote ++ dq_escape_simple value ++ quote ++ post] with ASCII [pre]; the value does not start with a double quote
+    (it would be located on the opening quote). *)
+Theorem C06_spell_double_selfescape : forall lines n minCol l pre post need rest,
+  sn_block n = false -> sn_anchor n = EmptyString -> sn_dq n = true ->
+  sn_value n = String need rest -> Ascii.eqb need dquote = false ->
+  line_at lines (sn_line n) = Some l ->
+  l = (pre ++ String dquote (dq_escape_simple (String need rest) ++ String dquote post))%string ->
+  ascii_only pre = true -> sn_col n = slen pre + 1 ->
+  exists pos, new_position_range lines n minCol = Ok pos /\ pos <> [] /\ wf pos /\ spells lines pos (sn_value n).
+Proof. exact double_selfescape_spells. Qed.
+Print Assumptions C06_spell_double_selfescape.
+
+Example C06_nonvacuous_double_selfescape :
+  let l := "  expr: ""up{job=\""a\\b\""} == 0"" # c"%string in
+  let v := "up{job=""a\b""} == 0"%string in
+  l = ("  expr: " ++ String dquote (dq_escape_simple v ++ String dquote " # c"))%string /\
+  new_position_range ["- alert: A"; l]%string (mksn v 2 9 false EmptyString true) 1
+  = Ok [mkp 2 10 16; mkp 2 18 19; mkp 2 21 22; mkp 2 24 30].
+Proof. split; vm_compute; reflexivity. Qed.
+
 (** ** Block scalars.  [block_ok literal b minCol] is the executable guard on the layout record [b]
     (Model/Layout.v): the header line is ARBITRARY (indicators, comment, anything: since fix 660d1e1 the scan starts
     on the next line), the first content line is not blank (it may start with blanks: explicit indentation
@@ -111,6 +147,20 @@ Proof.
   exists pos. auto.
 Qed.
 Print Assumptions C06_spell_folded_noblank.
+
+(** Folded blocks WITH blank lines between the paragraphs (the former finding class C06-folded-blank, the usual layout
+    of long annotations): [bl_value_fold] = YAML line folding incl. blank lines ([j] blank lines between two lines give
+    [j] line breaks, none a space), [fold_ok] = the guard (any header line; non-blank lines do not start with a blank,
+    i.e. no more-indented lines; g1). *)
+Theorem C06_spell_folded_blank_lines : forall b minCol,
+  fold_ok b minCol = true ->
+  exists pos, new_position_range (bl_lines b) (bl_node_fold b) minCol = Ok pos /\ pos <> [] /\
+              spells (bl_lines b) pos (bl_value_fold b).
+Proof.
+  intros b minCol H. destruct (node_ok_spells _ _ minCol (fold_node_ok b minCol H)) as [pos [H1 [H2 [_ H3]]]].
+  exists pos. auto.
+Qed.
+Print Assumptions C06_spell_folded_blank_lines.
 
 (** ** Multi-line plain scalars ([pm_ok]: segments non-blank, not starting with a blank, continuation lines
     indented by at least [minCol - 1] and ending with their segment). *)
@@ -416,6 +466,17 @@ Definition ex_quoted_ml : flow_ml_layout :=
   {| fm_pre := ["- alert: Foo"]%string; fm_keyline_pre := "  expr: "%string; fm_open := "'"%string;
      fm_first := "sum(foo{job=""a""})"%string; fm_mid := [(6%nat, "by (job)"%string)]; fm_last := (0%nat, "> 0"%string);
      fm_trailer := "'  # comment"%string; fm_after := ["  for: 5m"]%string |}.
+
+Definition ex_folded_paragraphs : block_layout :=
+  {| bl_pre := ["- alert: Foo"; "  annotations:"]%string; bl_keyline_pre := "    description: "%string; bl_header := ">- # first"%string;
+     bl_indent := 6; bl_first := "first paragraph"%string;
+     bl_items := [Body "continues."%string; Blank 0; Blank 3; Body "second paragraph"%string]; bl_tail := 0;
+     bl_after := ["  expr: up"]%string |}.
+
+Example C06_nonvacuous_folded_paragraphs :
+  fold_ok ex_folded_paragraphs 1 = true /\
+  bl_value_fold ex_folded_paragraphs = ("first paragraph continues." ++ nl ++ nl ++ "second paragraph")%string.
+Proof. split; vm_compute; reflexivity. Qed.
 
 Example C06_nonvacuous_blocks :
   fm_ok ex_quoted_ml 1 = true /\ fm_value ex_quoted_ml = "sum(foo{job=""a""}) by (job) > 0"%string /\
